@@ -263,10 +263,19 @@ def gen_step(rng, p, pipe, group, idx, targets, handlers, later_pipes, depth_tag
         inn.append(['arg1', rng.choice(['v', 1, '{word}', None, {'l': [1]}])])
     if rng.random() < 0.1:
         inn.append([rng.choice(['cnt', 'flag', 'word']), rng.choice([5, True, 'over'])])   # overrides
+    elif rng.random() < 0.06:
+        # an in-argument EQUAL to the context value of that name but of another type (1 == True,
+        # 0 == False): it still overrides — the body and the decorators see the argument
+        k, v = rng.choice([('n', True), ('flag', 0), ('flag', 1), ('cnt', False), ('nflag', 0), ('nflag', 1)])
+        inn.append([k, v])
+        if body == 'probe':
+            inn[:] = [x for x in inn if x[0] != 'pwatch'] + [['pwatch', {'l': [k, 'word']}]]
     if body == 'fail':
         cfg = [['err', rng.choice(ERRS)],
-               ['msg', rng.choice(['boom', 'failed at {ptag}', 'i={i}' if 'foreach' in loops else 'n={n}', 'x',
+               ['msg', rng.choice(['boom', 'failed at {ptag}', 'i={i}' if 'foreach' in loops else 'n={n}', 'x', '',
                                    'payload {{n}}' if rng.random() < 0.7 else 'lone {{ brace'])]]
+        if cfg[0][1] == 'pypyr.errors.MultiError' and cfg[1][1] == '':
+            cfg[1][1] = 'boom'       # MultiError prints a stock text for an empty message: not the step's doing
         if rng.random() < p['p_fail_when']:
             conds = [['cmp', 'lt', name('cnt'), ['int', rng.choice([1, 2])]], name('flag'), ['not', name('flag')]]
             if 'retry' in loops:
@@ -680,6 +689,25 @@ def per_iteration_decorators(rng, case):
             break
     else:
         case['lib'][0][1].insert(0, ['steps', [st]])
+    return case
+
+
+def empty_foreach_call(rng, case):
+    """a call / switch step carrying a literal EMPTY foreach (which pypyr treats as no foreach: the step
+    runs once, finding F7): the called group runs, the caller resumes, no counter is touched."""
+    groups = [gs for gs in case['lib'][0][1] if gs[0] not in ('steps', 'efc', 'gz')]
+    fe = rng.choice([{'l': []}, {'l': []}, ''])
+    if rng.random() < 0.6:
+        st = {'body': 'call', 'foreach': fe, 'in': [['ptag', 'main/steps/0'], ['call', rng.choice(['efc', {'l': ['efc', 'gz']}])]]}
+    else:
+        st = {'body': 'switch', 'foreach': fe,
+              'in': [['ptag', 'main/steps/0'], ['switch', {'l': [{'d': [['case', True], ['call', 'efc']]}]}]]}
+    callee = [{'body': 'probe', 'in': [['ptag', 'main/efc/0'], ['pwatch', {'l': ['i', 'cnt']}]]}]
+    if rng.random() < 0.3:
+        callee.append({'body': 'fail', 'in': [['ptag', 'main/efc/1'], ['vfail', {'d': [['err', 'ValueError'], ['msg', 'in callee']]}]]})
+    case['lib'][0][1] = [['steps', [st, {'body': 'probe', 'in': [['ptag', 'main/steps/after'], ['pwatch', {'l': ['i']}]]}]]] \
+        + groups + [['efc', callee], ['gz', [{'body': 'probe', 'in': [['ptag', 'main/gz/0']]}]]]
+    case.pop('groups', None)
     return case
 
 
